@@ -121,6 +121,10 @@ def draw_params(rng, keys, shape):
                              "sigma_color": float(rng.choice([0.5, 2.0]))}
             else:
                 params[k] = {"filter_method": meth, "filter_size": int(rng.choice([1, 3, 5, 7, 9, 11]))}
+                if meth == "median_for_intervals" and rng.random() < 0.6:
+                    params[k].update({"regularization": bool(rng.integers(0, 2)), "vertical_depth": int(rng.choice([0, 2, 8, 20])),
+                                      "ambiguity_kernel_size": int(rng.choice([1, 5, 9])),
+                                      "quantile_regularization": float(rng.choice([0.9, 1.0]))})
         elif kind == "refinement":
             params[k] = {"refinement_method": ["vfit", "quadratic"][int(rng.integers(0, 2))]}
     return params
